@@ -110,7 +110,7 @@ func TestVerifC06(t *testing.T) {
 						run.Count("b_truncated_prefixes_checked", 1)
 						run.Count("b_truncated_"+fr, 1)
 						if err == nil {
-							run.Violation("C06:b:truncated-index-accepted:"+rd.name+":"+fr+":"+class,
+							run.Violation("C06:b:truncated-index-accepted:"+rd.name+":"+fr,
 								fmt.Sprintf("%s returned %d entries and no error for an index response cut at byte %d of %d (%s, framing %s); tail of what was sent: %q",
 									rd.name, len(got), k, len(F), class, fr, c06Tail(prefix)), c)
 						} else {
